@@ -262,7 +262,6 @@ def noResetWiring (w : Wiring) : Wiring := { w with refreshResetsTimers := false
 
 def c07Cfg : Cfg := { cap := none, strat := .only, timeout := none, failOnTimeout := false, stream := false }
 
-example : (run (noResetWiring Wiring.current) (AState.init c07Cfg 0 .addr) c07Witness).isSome = true := by decide
 example : (monC07 { cfg := c07Cfg, h0 := 0, k0 := .addr, prompt := true }).ok c07Witness = false := by decide
 
 
